@@ -935,6 +935,14 @@ impl<'a, const D: usize, const F: usize, const V: usize> Ctx<'a, D, F, V> {
                             _ => vm.file_seek_from_start(f, b as u32),
                         }
                     }
+                    "seek_end" if u < 0 => {
+                        // a position behind the end of the file: only the embedded-io trait can say that (`End(+n)`)
+                        let b = self.vals.u2b((-u) as u64) as i64;
+                        let mut ff = f.to_file(vm);
+                        let r = EioSeek::seek(&mut ff, SeekFrom::End(b)).map(|_| ());
+                        ff.to_raw_file();
+                        r
+                    }
                     "seek_end" => {
                         let b: u64 = if u <= lu { len - self.vals.u2b((lu - u) as u64) } else { len + 1 };
                         match api {
